@@ -352,14 +352,13 @@ Fixpoint rq_validate_labels (fuel : nat) (s : bytes) : bool :=
            end
     end
   end.
-Definition c_INET6_ADDRSTRLEN : nat := 46.   (* <netinet/in.h>; pinned by correspondence cases with 44/45-byte bracketed hosts *)
 Definition htp_validate_hostname (h : bytes) : bool :=
   let len := length h in
   if (len =? 0)%nat || (255 <? len)%nat then false
   else match h with
        | c0 :: r =>
          if (c0 =? 91)%N then
-           if (len <? 2)%nat || (c_INET6_ADDRSTRLEN <=? len - 2)%nat then false
+           if (len <? 2)%nat || (c_INET6_ADDRSTRLEN <=? Z.of_nat (len - 2)) then false
            else rq_inet_pton6 (firstn (len - 2) r)
          else rq_validate_labels (S len) h
        | [] => false
